@@ -103,7 +103,7 @@ def ensure_tools(log=sys.stderr):
             if os.path.exists(binp) and os.path.getmtime(binp) >= os.path.getmtime(src):
                 continue
             t0 = time.time()
-            env = dict(os.environ, CARGO_NET_OFFLINE="true")
+            env = dict(os.environ, CARGO_NET_OFFLINE="true", CARGO_TARGET_DIR=os.path.join(CACHE, name + "-target"))   # (a snapshot of /verif builds into its own .cache)
             env.pop("RUSTC_WORKSPACE_WRAPPER", None)
             env.pop("RUSTFLAGS", None)
             r = subprocess.run(
